@@ -40,6 +40,11 @@ var (
 	pubRef     blob.Ref
 	signerErr  error
 	timeBase   = time.Now().UTC().Truncate(time.Second)
+
+	// restartedProcess: this process image is the result of perkeep re-executing the harness
+	// (osutil.RestartProcess, reached through POST <status>/restart): see init below
+	restartedProcess bool
+	restartedOps     []string
 )
 
 func getSigner() (*schema.Signer, error) {
@@ -60,8 +65,44 @@ func getSigner() (*schema.Signer, error) {
 	return signer, signerErr
 }
 
-// model time (the model's clock stands at 1000) -> wall clock
-func realTime(t int) time.Time { return timeBase.Add(time.Duration(t-1000) * time.Hour) }
+// A request that gets past the guard of the status handler with POST …/restart makes perkeep
+// syscall.Exec this very binary with "-reindex=… -recovery=…". The harness must survive that and
+// report it: the generator leaves the ops of the request it is about to send in the environment
+// (dangerEnv), and the re-executed image drops the foreign flags, remembers the ops (Run turns them
+// into a Failure) and never sends such a request again.
+const dangerEnv = "PKH_C17_PENDING_UNSAFE_REQUEST"
+
+func init() {
+	var keep []string
+	for _, a := range os.Args {
+		if strings.HasPrefix(a, "-reindex=") || strings.HasPrefix(a, "-recovery=") {
+			restartedProcess = true
+			continue
+		}
+		keep = append(keep, a)
+	}
+	if restartedProcess {
+		os.Args = keep
+		if v := os.Getenv(dangerEnv); v != "" {
+			restartedOps = strings.Split(v, "\n")
+		}
+		os.Unsetenv(dangerEnv)
+	}
+}
+
+// unsafeRequest: a request that restarts the process if it is let through
+func unsafeRequest(htype, method, sub string) bool {
+	return htype == "status" && method == "POST" && strings.HasPrefix(sub, "restart")
+}
+
+// model time -> wall clock: the model's clock starts at 1000 and counts seconds; 1000 is the (whole)
+// second that follows the creation of the world
+func (w *world) realTime(t int) time.Time { return w.base.Add(time.Duration(t-1000) * time.Second) }
+
+// claims are dated an hour before the world began, in id order
+func (w *world) claimTime(id int) time.Time {
+	return w.base.Add(-time.Hour).Add(time.Duration(id) * time.Second)
+}
 
 // ---- the loader the share handler's constructor sees -------------------------------------------------
 
@@ -112,15 +153,21 @@ type world struct {
 	data    map[int]string   // id -> bytes of a stored blob
 	kind    map[int]string
 	phantom map[int]bool // ids that were referenced before being stored: can never be stored
+	removed map[int]bool // stored once, removed from the storage since
+	base    time.Time    // wall clock of model time 1000
+	now     int          // model time
 	srv     *srvWorld
 	keepSrv bool // keep the in-process server between ops (the generator closes it itself)
 	lastRec *httptest.ResponseRecorder
-	err     string
+	// status of the credentialed first step of the last after-auth op
+	lastAuthCode int
+	err          string
 }
 
 func newWorld() *world {
 	server.VerifDisableShareDelay()
-	w := &world{refs: map[int]blob.Ref{}, data: map[int]string{}, kind: map[int]string{}, phantom: map[int]bool{}}
+	w := &world{refs: map[int]blob.Ref{}, data: map[int]string{}, kind: map[int]string{}, phantom: map[int]bool{}, removed: map[int]bool{},
+		base: time.Now().UTC().Truncate(time.Second).Add(time.Second), now: 1000}
 	if _, err := getSigner(); err != nil {
 		w.err = "signer: " + err.Error()
 		return w
@@ -236,7 +283,7 @@ func (w *world) putBlob(ws []string) string {
 		name += " see " + w.refText(extra)
 	}
 	sign := func(bb *schema.Builder) (string, bool) {
-		js, err := bb.SignAt(ctxbg, signer, timeBase.Add(time.Duration(id)*time.Second))
+		js, err := bb.SignAt(ctxbg, signer, w.claimTime(id))
 		return js, err == nil
 	}
 	switch kind {
@@ -256,7 +303,7 @@ func (w *world) putBlob(ws []string) string {
 			bb.SetShareSearch(map[string]any{"expression": "tag:shared"})
 		}
 		if exp >= 0 {
-			bb.SetShareExpiration(realTime(exp))
+			bb.SetShareExpiration(w.realTime(exp))
 		}
 		bb.SetRawStringField("fileName", name)
 		js, ok := sign(bb)
@@ -388,7 +435,7 @@ func (w *world) del(ws []string) string {
 	if !ok1 || !ok2 {
 		return "bad-op"
 	}
-	js, err := schema.NewDeleteClaim(w.ref(t)).SignAt(ctxbg, signer, timeBase.Add(time.Duration(id)*time.Second))
+	js, err := schema.NewDeleteClaim(w.ref(t)).SignAt(ctxbg, signer, w.claimTime(id))
 	if err != nil {
 		return "err"
 	}
@@ -486,7 +533,38 @@ func (w *world) exec(ws []string) string {
 			return res.code + " *"
 		}
 		return fmt.Sprintf("%s %d", res.code, res.status)
-	case "guard", "access", "fixed", "discovery", "srvclose":
+	case "now":
+		// the clock moves on: model time t is the wall-clock second that ends at realTime(t); wait for
+		// its second half (at model time t a share with expires = e is expired iff e < t)
+		if len(ws) != 2 {
+			return "bad-op"
+		}
+		t, ok := parseNat(ws[1])
+		if !ok || t < w.now || t > w.now+10 {
+			return "bad-op"
+		}
+		if d := time.Until(w.realTime(t).Add(-500 * time.Millisecond)); d > 0 {
+			time.Sleep(d)
+		}
+		w.now = t
+		return "ok"
+	case "rm":
+		// the blob disappears from the storage (the index keeps what it knows)
+		if len(ws) != 2 {
+			return "bad-op"
+		}
+		id, ok := parseNat(ws[1])
+		if !ok {
+			return "bad-op"
+		}
+		if br, stored := w.refs[id]; stored && !w.removed[id] {
+			if err := w.sto.RemoveBlobs(ctxbg, []blob.Ref{br}); err != nil {
+				return "err"
+			}
+			w.removed[id] = true
+		}
+		return "ok"
+	case "guard", "access", "after-auth", "fixed", "discovery", "srvclose":
 		return w.execSrv(ws)
 	}
 	return "bad-op"
